@@ -148,7 +148,9 @@ def run_cfg(ctx, exe, cfg, state, module="MC_OptParse.tla", specdir=None, vacuit
             raw.append(json.dumps(d, separators=(",", ":")))
     workers = min(4, int(os.environ.get("VERIF_JOBS", "4")))
     kw = {"specdir": specdir} if specdir else {}
-    res = run_tlc(module, cfg, ctx.rundir, on_edge=on_line, workers=workers, timeout=3000, heap="8g", **kw)
+    # SplitWords recurses once per word of an "--exec=VALUE" list (up to ~1000 words in the size sweep): deep Java stack
+    res = run_tlc(module, cfg, ctx.rundir, on_edge=on_line, workers=workers, timeout=3000, heap="8g",
+                  env={"JAVA_TOOL_OPTIONS": "-Xss1g"}, **kw)
     nb = len(raw)
     ctx.add("states", res.distinct)
     ctx.add("transitions", res.generated)
@@ -312,8 +314,7 @@ def long_vectors(ctx, exe, state):
     def run_vectors(vs, tag):
         with open(os.path.join(d, "MC_OptParseLong.tla"), "w") as f:
             f.write("---- MODULE MC_OptParseLong ----\nEXTENDS MC_OptParse\n")
-            f.write("LongTokText == MCTokText \\o <<\n%s\n>>\n" % ",\n".join(
-                "<<%s>>" % ", ".join(str(c) for c in w) for w in toktext[nbase:]) if len(toktext) > nbase else "LongTokText == MCTokText\n")
+            f.write("LongTokText == <<\n%s\n>>\n" % ",\n".join("<<%s>>" % ", ".join(str(c) for c in w) for w in toktext))
             f.write("Sampled == {\n")
             f.write(",\n".join("<<%s>>" % ", ".join(str(t) for t in v) for v in sorted(vs)))
             f.write("\n}\nArgvsSampled(t) == Sampled\n====\n")
